@@ -79,10 +79,10 @@ pub fn emit_chain(out: &mut Out, c: u64, r: u64, ls: &[Level]) {
     out.end(&obs);
 }
 
-pub fn emit_new(out: &mut Out, mutable: bool, c: u64, r: u64, slen: u64) {
+pub fn emit_new(out: &mut Out, prop: u32, mutable: bool, c: u64, r: u64, slen: u64) {
     let inp = vec![DBG as u64, if mutable { 2 } else { 1 }, c, r, slen];
-    if out.want_sample() { out.sample(&format!("C03 TooDeeView{}::new({}, {}, slice of {})", if mutable { "Mut" } else { "" }, c, r, slen)); }
-    out.begin(3, 4, &inp);
+    if out.want_sample() { out.sample(&format!("C{:02} TooDeeView{}::new({}, {}, slice of {})", prop, if mutable { "Mut" } else { "" }, c, r, slen)); }
+    out.begin(prop, 4, &inp);
     let mut data: Vec<u32> = (0..slen as u32).collect();
     let mut o = vec![];
     let res = catch_unwind(AssertUnwindSafe(|| {
@@ -151,7 +151,7 @@ pub fn gen_c03(out: &mut Out, tier: &str, rng: &mut Rng) {
     for &c in &dims { for &r in &dims {
         let p = (c as u128) * (r as u128);
         let lens: Vec<u64> = if p <= 64 { let p = p as u64; vec![p.saturating_sub(1), p, p + 1, p + 5, 0] } else { vec![0, 7] };
-        for slen in lens { for m in [false, true] { emit_new(out, m, c, r, slen); } }
+        for slen in lens { for m in [false, true] { emit_new(out, 3, m, c, r, slen); } }
     } }
 }
 
@@ -264,7 +264,7 @@ pub fn gen_c02(out: &mut Out, tier: &str, _rng: &mut Rng) {
     }
 }
 
-pub fn replay(out: &mut Out, fam: u32, inp: &[u64]) {
+pub fn replay(out: &mut Out, prop: u32, fam: u32, inp: &[u64]) {
     if fam == 5 {
         emit_access(out, inp[1], inp[2], inp[3], (inp[5], inp[6], inp[7], inp[8]), inp[9], inp[10]);
     } else if inp[1] == 0 {
@@ -272,6 +272,6 @@ pub fn replay(out: &mut Out, fam: u32, inp: &[u64]) {
         let ls: Vec<Level> = (0..n).map(|i| { let b = 5 + 5 * i; Level { mutable: inp[b] != 0, win: (inp[b + 1], inp[b + 2], inp[b + 3], inp[b + 4]) } }).collect();
         emit_chain(out, inp[2], inp[3], &ls);
     } else {
-        emit_new(out, inp[1] == 2, inp[2], inp[3], inp[4]);
+        emit_new(out, prop, inp[1] == 2, inp[2], inp[3], inp[4]);
     }
 }
